@@ -18,6 +18,8 @@ type trafShape struct {
 type tfraShape struct {
 	trackID uint32
 	offs    []uint32
+	ver     byte // rendering only (the model sees track id and moof offsets): tfra version 0 / 1
+	lens    byte // rendering only: the 6-bit length-size block (traf / trun / sample number fields of 1..4 bytes)
 }
 
 type shape struct {
@@ -32,6 +34,12 @@ type shape struct {
 	// layout directives resolved by render: 'm' = tfra offsets of all moofs / sidx ref sizes of following boxes
 	auto byte
 	size int // filled by layout
+	// trailing index (kinds A, R, W): mfroMode 0 = mfro child whose ParentSize is the mfra size (the old letter A),
+	// 'n' = no mfro child, 'v' = mfro with ParentSize mfroVal.  R = stand-alone top-level mfro (ParentSize mfroVal),
+	// W = mdat whose payload is pre bytes followed by a whole mfra box
+	mfroMode byte
+	mfroVal  uint32
+	pre      int
 }
 
 func (t trafShape) String() string {
@@ -75,19 +83,35 @@ func (s *shape) String() string {
 		return "O:" + strings.Join(r, "/")
 	case 'D':
 		return fmt.Sprintf("D%d", s.payload)
-	case 'A':
-		if len(s.tfras) == 0 {
-			return "A"
-		}
+	case 'A', 'W':
 		var r []string
 		for _, t := range s.tfras {
 			var o []string
 			for _, x := range t.offs {
 				o = append(o, fmt.Sprint(x))
 			}
-			r = append(r, fmt.Sprintf("%d=%s", t.trackID, strings.Join(o, ",")))
+			tok := fmt.Sprintf("%d=%s", t.trackID, strings.Join(o, ","))
+			if t.ver != 0 || t.lens != 0 {
+				tok += fmt.Sprintf("~v%dl%d", t.ver, t.lens) // ignored by the model
+			}
+			r = append(r, tok)
+		}
+		mf := "n"
+		if s.mfroMode == 'v' {
+			mf = fmt.Sprint(s.mfroVal)
+		}
+		if s.kind == 'W' {
+			return fmt.Sprintf("W%d.%s:%s", s.pre, mf, strings.Join(r, "|"))
+		}
+		if s.mfroMode != 0 {
+			return fmt.Sprintf("B%s:%s", mf, strings.Join(r, "|"))
+		}
+		if len(s.tfras) == 0 {
+			return "A"
 		}
 		return "A:" + strings.Join(r, "|")
+	case 'R':
+		return fmt.Sprintf("R%d", s.mfroVal)
 	}
 	return string(s.kind)
 }
@@ -164,15 +188,33 @@ func (s *shape) renderFixed() []byte {
 	case 'D':
 		return mdat(s.payload)
 	case 'A':
-		var t [][]byte
-		for _, x := range s.tfras {
-			t = append(t, tfra(x.trackID, x.offs))
+		return s.renderMfra()
+	case 'W':
+		junk := make([]byte, s.pre)
+		for i := range junk {
+			junk[i] = 0xd0 + byte(i&7)
 		}
-		return mfra(t...)
+		return box("mdat", junk, s.renderMfra())
+	case 'R':
+		return fullbox("mfro", 0, 0, u32(s.mfroVal))
 	case 'U':
 		return free(0)
 	}
 	panic("bad shape kind")
+}
+
+func (s *shape) renderMfra() []byte {
+	var t [][]byte
+	for _, x := range s.tfras {
+		t = append(t, tfraX(x.trackID, x.offs, x.ver, x.lens))
+	}
+	switch s.mfroMode {
+	case 'n':
+		return box("mfra", t...)
+	case 'v':
+		return box("mfra", cat(t...), fullbox("mfro", 0, 0, u32(s.mfroVal)))
+	}
+	return mfra(t...)
 }
 
 // layout resolves the auto directives (they only change field values, not sizes, except tfra 'm'
@@ -187,7 +229,7 @@ func renderList(l []*shape) []byte {
 	}
 	for i, s := range l {
 		if s.kind == 'A' && s.auto == 'm' {
-			s.tfras = []tfraShape{{1, make([]uint32, nMoof)}}
+			s.tfras = []tfraShape{tf(1, make([]uint32, nMoof))}
 		}
 		if s.kind == 'X' && s.auto == 'm' {
 			s.refs = nil
@@ -208,7 +250,7 @@ func renderList(l []*shape) []byte {
 	}
 	for i, s := range l {
 		if s.kind == 'A' && s.auto == 'm' {
-			s.tfras = []tfraShape{{1, moofPos}}
+			s.tfras = []tfraShape{tf(1, moofPos)}
 		}
 		if s.kind == 'X' && s.auto == 'm' {
 			// reference sizes = sizes of the following boxes pairwise (moof+mdat style), at most 2 refs
@@ -245,6 +287,8 @@ func listString(l []*shape) string {
 	return strings.Join(ss, ";")
 }
 
+func tf(id uint32, offs []uint32) tfraShape { return tfraShape{trackID: id, offs: offs} }
+
 func tr(tfhd bool, saio, senc int, truns ...int) trafShape {
 	return trafShape{tfhd: tfhd, saio: saio, senc: senc, truns: truns}
 }
@@ -270,8 +314,8 @@ func alphabet() []*shape {
 		{kind: 'O', trafs: []trafShape{tr(true, 0, 3)}},
 		{kind: 'O', trafs: []trafShape{tr(true, 1, 1)}},
 		{kind: 'D', payload: 0}, {kind: 'D', payload: 4},
-		{kind: 'A'}, {kind: 'A', tfras: []tfraShape{{1, nil}}}, {kind: 'A', auto: 'm'},
-		{kind: 'A', tfras: []tfraShape{{1, []uint32{0}}}},
+		{kind: 'A'}, {kind: 'A', tfras: []tfraShape{tf(1, nil)}}, {kind: 'A', auto: 'm'},
+		{kind: 'A', tfras: []tfraShape{tf(1, []uint32{0})}},
 		{kind: 'U'},
 	}
 }
@@ -332,9 +376,9 @@ func randomList(r *hx.Rng) []*shape {
 		case 0:
 			a.auto = 'm'
 		case 1:
-			a.tfras = []tfraShape{{1, []uint32{0}}, {uint32(r.Pick(1, 2)), []uint32{uint32(r.Pick(0, 8))}}}
+			a.tfras = []tfraShape{tf(1, []uint32{0}), tf(uint32(r.Pick(1, 2)), []uint32{uint32(r.Pick(0, 8))})}
 		case 2:
-			a.tfras = []tfraShape{{1, nil}}
+			a.tfras = []tfraShape{tf(1, nil)}
 		}
 		l = append(l, a)
 	}
